@@ -119,7 +119,7 @@ def restore_player(ctx, league, name, path, ids_seen=None, check=False):
             if new is old:
                 ctx.violation("C20/deepcopy:identity", {"name": name})
             for f in ("mu", "sigma", "name", "id"):
-                a, b = getattr(old, f, None), getattr(new, f, "<missing>")
+                b, a = getattr(new, f, "<missing>"), getattr(old, f, None)
                 if type(a) is not type(b) or enc(a) != enc(b):
                     ctx.violation("C20/deepcopy:%s" % f, {"name": name, "orig": repr(a), "copy": repr(b)})
     else:
@@ -136,20 +136,33 @@ def restore_player(ctx, league, name, path, ids_seen=None, check=False):
     return new
 
 
-def check_built(ctx, r, mu, sigma, name, path, ids_seen):
+def check_built(ctx, r, mu, sigma, name, path, created):
+    """Construction invariants of a rating built through rating()/create_rating().  The id is
+    deliberately NOT read here: an implementation may create it lazily, and reading it now
+    would hide a copy taken before the first read.  Built objects are remembered in `created`
+    and their ids are verified by check_ids() later (after copies were taken)."""
     for f, want in (("mu", mu), ("sigma", sigma)):
         got = getattr(r, f, "<missing>")
         if type(got) is not type(want) or enc(got) != enc(want) or not (got == want):
             ctx.violation("C20/restore_value:%s:%s" % (path, f), {"given": enc(want), "held": enc(got) if isinstance(got, (int, float)) else repr(got)})
     if name and getattr(r, "name", None) != name:
         ctx.violation("C20/restore_value:%s:name" % path, {"given": name, "held": repr(getattr(r, "name", None))})
-    rid = getattr(r, "id", None)
-    if not isinstance(rid, str) or not rid:
-        ctx.violation("C20/id_not_fresh:%s" % path, {"id": repr(rid)})
-    if ids_seen is not None:
-        if rid in ids_seen:
-            ctx.violation("C20/id_not_fresh:%s" % path, {"id": "repeated"})
-        ids_seen.add(rid)
+    if created is not None:
+        created.append((r, path))
+
+
+def check_ids(ctx, created):
+    """Every rating built through rating()/create_rating() carries a non-empty string id that
+    differs from the id of every other built rating of the run."""
+    seen = {}
+    for k, (r, path) in enumerate(created):
+        rid = getattr(r, "id", None)
+        if not isinstance(rid, str) or not rid:
+            ctx.violation("C20/id_not_fresh:%s" % path, {"id": repr(rid)})
+        j = seen.get(rid)
+        if j is not None and created[j][0] is not r:
+            ctx.violation("C20/id_not_fresh:%s" % path, {"id": "repeated", "first_built_through": created[j][1]})
+        seen[rid] = k
 
 
 def exec_new(ctx, league, op):
@@ -951,7 +964,8 @@ class StoreDriver:
         self.ctx = ctx
         self.A = League(ctx.cfg)
         self.B = League(ctx.cfg)
-        self.ids = set()
+        self.ids = []  # (object, path) of every rating built through rating()/create_rating()
+        self.snapshots = {}  # name -> earlier deepcopy snapshots of that player (league B)
         self.pop_done = False
         self.pending = []
         self.n_gen = 0
@@ -1002,8 +1016,10 @@ class StoreDriver:
             return gen_rate_op(rng, ctx, self.A, names, p["opt_rate"], maker=p["maker"], rule=p["rule"])
         if r < 0.9:
             return gen_predict_op(rng, names, self.A)
-        if r < 0.95:
+        if r < 0.94:
             return {"op": "DEEPCOPY_TEAMS", "teams": gen_match(rng, allnames, None, shape_max=(3, 3))}
+        if r < 0.97:
+            return {"op": "DEEPCOPY_HISTORY", "names": rng.sample(allnames, min(len(allnames), rng.randint(1, 3)))}
         return {"op": "NEW", "name": "p%d" % len([n for n in names if n.startswith("p")])}
 
     def run(self):
@@ -1015,6 +1031,8 @@ class StoreDriver:
             kind = op["op"]
             ctx.count("op:" + kind)
             getattr(self, "op_" + kind)(op)
+        ctx.evaluations += 1
+        check_ids(ctx, self.ids)
 
     def op_NEW(self, op):
         ctx = self.ctx
@@ -1157,7 +1175,7 @@ class StoreDriver:
                 if p is q:
                     ctx.violation("C20/deepcopy:identity", {"teams": names})
                 for f in ("mu", "sigma", "name", "id"):
-                    a, b = getattr(p, f, None), getattr(q, f, "<missing>")
+                    b, a = getattr(q, f, "<missing>"), getattr(p, f, None)
                     if type(a) is not type(b) or enc(a) != enc(b):
                         ctx.violation("C20/deepcopy:%s" % f, {"orig": repr(a), "copy": repr(b)})
         ctx.probe("deepcopy_nested")
@@ -1170,6 +1188,45 @@ class StoreDriver:
                 self.restored.add(n)
                 self.ever_restored.add(n)
         ctx.log("DEEPCOPY_TEAMS", names)
+
+
+def _op_DEEPCOPY_HISTORY(self, op):
+    """Snapshot path with history: earlier deep-copy snapshots of a player (same id, older
+    values) and the live object together in one nested structure; every element must come
+    back as a distinct object holding ITS OWN mu, sigma, name and id."""
+    ctx = self.ctx
+    struct = []
+    for n in op["names"]:
+        if n not in self.B.players:
+            continue
+        live = self.B.players[n]
+        hist = self.snapshots.setdefault(n, [])
+        struct.append({"history": list(hist), "live": [live]})
+        hist.append(copy.deepcopy(live))
+        del hist[:-3]
+    if not struct:
+        return
+    cp = copy.deepcopy(struct)
+    ctx.evaluations += 1
+    seen = set()
+    for a, b in zip(struct, cp):
+        for key in ("history", "live"):
+            if b[key] is a[key] or len(b[key]) != len(a[key]):
+                ctx.violation("C20/deepcopy:nested_inner", {"names": op["names"]})
+            for p, q in zip(a[key], b[key]):
+                if p is q or id(q) in seen:
+                    ctx.violation("C20/deepcopy:identity", {"names": op["names"], "where": key})
+                seen.add(id(q))
+                for f in ("mu", "sigma", "name", "id"):
+                    y, x = getattr(q, f, "<missing>"), getattr(p, f, None)
+                    if type(x) is not type(y) or enc(x) != enc(y):
+                        ctx.violation("C20/deepcopy:%s" % f, {"orig": repr(x), "copy": repr(y), "where": key, "same_id_objects_in_structure": len(a["history"]) + 1})
+        if a["history"]:
+            ctx.probe("deepcopy_history_same_id_different_values")
+    ctx.log("DEEPCOPY_HISTORY", op["names"])
+
+
+StoreDriver.op_DEEPCOPY_HISTORY = _op_DEEPCOPY_HISTORY
 
 
 DRIVERS = {
